@@ -229,9 +229,9 @@ class C18(Prop):
     technique = ('Hypothesis-generated option subsets x run endings x initial interpreter states; snapshot-before / '
                  'snapshot-after equality oracle around Runner.run()')
     level_text = ('Every subset of {--gc, -G, --coverage, --profile, --buffer, -D, warnings argument, --gc-after-test} is '
-                  'combined with ten ways the test phase can end (all pass, failures, exception or KeyboardInterrupt from '
+                  'combined with eleven ways the test phase can end (all pass, failures, exception or KeyboardInterrupt from '
                   'a layer testSetUp/testTearDown, KeyboardInterrupt in a test\'s setUp/body/tearDown, -x, failing layer '
-                  'setUp/tearDown) and a generated initial state (gc thresholds/flags, extra warnings filters, pre-patched '
+                  'setUp/tearDown, a failing test that leaves sys.stdout/stderr rebound under --buffer) and a generated initial state (gc thresholds/flags, extra warnings filters, pre-patched '
                   'traceback functions, trace/profile hooks); the listed items are compared right after Runner.run() '
                   'returns or raises.')
     level_note = ('Only the items the statement lists are compared; non-None initial sys trace/profile hooks are only '
